@@ -2,8 +2,10 @@ package rules
 
 import (
 	"fmt"
+	"go/ast"
 	"go/types"
 	"math/big"
+	"strings"
 
 	"cachelint/pw"
 )
@@ -82,6 +84,71 @@ func checkC05(c *Ctx) {
 	}, func(o *coreObl) (string, bool) {
 		return "R05.7", o.Rule == "R01.2" || o.Rule == "R01.3" || o.Rule == "R01.4"
 	})
+	// … and the builder is run by the owner only: a waiter that is handed the builder (re-entering Get once the owner gave up) builds
+	// again for every waiter of the burst (C01 R01.1)
+	c.borrowKinds("C01", func() {
+		for _, sib := range siblings {
+			if fo := c.failover(sib); fo.Err == nil {
+				c.c01Sibling(fo)
+			}
+		}
+	}, "R05.7", "Failover.Get:builder-with-owner-only", []string{"R01.1"}, "builder-escapes")
+	// the result of a background build is stored under the key of the call: the background goroutine writes with a private copy of
+	// that key, not with the caller's slice the caller is free to reuse after Get returned — else the result lands under whatever
+	// the buffer holds by then and the requested key is built again (C04 R04.4)
+	c.borrowKinds("C04", func() {
+		for _, sib := range siblings {
+			if fo := c.failover(sib); fo.Err == nil {
+				c.c04Sibling(fo)
+			}
+		}
+	}, "R05.2", "Failover.Get:background-result-under-own-key", []string{"R04.4"}, "BackendWrite", "ErrorsWrite")
+	c.c05FailureCacheKept()
+}
+
+// c05FailureCacheKept: "the error is served from the failure cache for FailedUpdateTTL": nothing in the failover frontend removes or
+// expires entries of the failure cache (who-may rule over the Errors field: Read and Write only).
+func (c *Ctx) c05FailureCacheKept() {
+	r := c.R
+	info := c.Pkg.TypesInfo
+	n := 0
+	bad := false
+	c.eachFuncDecl(func(fd *ast.FuncDecl, fn *types.Func) {
+		fname := strings.TrimPrefix(pw.FuncName(fn), "cache.")
+		if !strings.HasPrefix(fname, "Failover.") && !strings.HasPrefix(fname, "FailoverOf.") || c.isNewAPI(fn) {
+			return
+		}
+		ast.Inspect(fd.Body, func(x ast.Node) bool {
+			call, ok := x.(*ast.CallExpr)
+			if !ok {
+				return true
+			}
+			sel, ok := ast.Unparen(call.Fun).(*ast.SelectorExpr)
+			if !ok {
+				return true
+			}
+			inner, ok := ast.Unparen(sel.X).(*ast.SelectorExpr)
+			if !ok {
+				return true
+			}
+			fv, _ := info.Uses[inner.Sel].(*types.Var)
+			if fv == nil || !fv.IsField() || fv.Name() != actualField("Failover", "Errors") {
+				return true
+			}
+			n++
+			switch sel.Sel.Name {
+			case "Delete", "DeleteAll", "ExpireAll", "InvalidateByLabels", "Restore":
+				bad = true
+				r.Bad("R05.4", fname, "failure-cache-entry-removed", c.Pos(call.Pos()), "the failover frontend calls "+sel.Sel.Name+" on its failure cache: a recorded failure no longer suppresses builds for FailedUpdateTTL", nil)
+			}
+			return true
+		})
+	})
+	if n == 0 {
+		r.Unknown("R05.4", "Failover.Errors", "vacuous: no use of the failure cache found")
+	} else if !bad {
+		r.OK("R05.4", "Failover.Errors", fmt.Sprintf("%d uses of the failure cache in the frontend, none removes or expires entries", n))
+	}
 }
 
 type seqEv struct {
